@@ -3,6 +3,7 @@ package work
 import (
 	"crypto"
 	"crypto/sha512"
+	"fmt"
 
 	"github.com/oasisprotocol/curve25519-voi/curve/scalar"
 	"github.com/oasisprotocol/curve25519-voi/primitives/ed25519"
@@ -105,6 +106,31 @@ func c19MoreTargets() []c19Target {
 			}
 			return c19Res{ok: ok}
 		}})
+	// batches whose entries use DIFFERENT option sets (cofactorless next to cofactored, ...)
+	mixPresets := []*ed25519.VerifyOptions{ed25519.VerifyOptionsDefault, ed25519.VerifyOptionsStdLib, ed25519.VerifyOptionsFIPS_186_5, ed25519.VerifyOptionsZIP_215}
+	for i := range mixPresets {
+		for j := range mixPresets {
+			if i == j {
+				continue
+			}
+			oa, ob := &ed25519.Options{Verify: mixPresets[i]}, &ed25519.Options{Verify: mixPresets[j]}
+			add(c19Target{name: fmt.Sprintf("ed25519.BatchVerifier[preset%d next to preset%d](signature)", i, j), size: 64, gen: genEdSig,
+				try: func(c *c19Ctx, prev, b []byte) c19Res {
+					good := ed25519.Sign(c.priv, c.aux["msg"])
+					ex, _ := ed25519.NewExpandedPublicKey(c.aux["pk"])
+					v := ed25519.NewBatchVerifier()
+					v.AddWithOptions(c.aux["pk"], c.aux["msg"], b, oa)
+					v.AddWithOptions(c.aux["pk"], c.aux["msg"], good, ob)
+					v.AddExpandedWithOptions(ex, c.aux["msg"], good, oa)
+					_ = v.VerifyBatchOnly(det())
+					_, res := v.Verify(det())
+					if len(res) != 3 || !res[1] || !res[2] {
+						return c19Res{ok: len(res) > 0 && res[0], bad: "a valid entry of a mixed-option batch was reported invalid"}
+					}
+					return c19Res{ok: res[0]}
+				}})
+		}
+	}
 	// pre-hashed verification: the message is a 64-byte digest; any other length is a documented panic of
 	// single verification and an invalid entry in a batch
 	add(c19Target{name: "ed25519.VerifyWithOptions[ph](message digest)", size: 64,
